@@ -94,8 +94,11 @@ def unit(name, quick, thorough, chunk=10, args=None):
 
 PROPS['C18'] = {
     'modules': ['OtterVerif.Props.C18'],
-    'engines': [unit('sketch', 42, 1400, chunk=3)],
-    'rule': 'UNIT-sketch: random ensureCapacity/increment/frequency sequences (capacities 0..4097 incl. non-powers of two, hot keys to cross saturation and reset) on the real sketch; '
+    'engines': [unit('sketch', 42, 1400, chunk=3),
+                # "a new arrival displaces the victim only if its estimate is strictly greater": the eviction decisions of the real
+                # policy (which consults the real sketch) are replayed on the model after every call
+                unit('policy', 60, 3000, chunk=5)],
+    'rule': 'UNIT-policy: every eviction decision of the real policy equals the model\'s (admit = strictly greater estimate, or >= 6 and the random draw). UNIT-sketch: random ensureCapacity/increment/frequency sequences (capacities 0..4097 incl. non-powers of two, hot keys to cross saturation and reset) on the real sketch; '
             'the model must reproduce size and the FNV digest of the whole table after every call; distinct = distinct transcripts with >= 10 lines',
     'trusted': UNIT_TRUST,
 }
